@@ -125,6 +125,14 @@ fn usability(n: usize, ps: &[f64], deviations: bool) -> UsOut {
                             if f.len() != n {
                                 return Err(format!("len() = {} after {} inserts", f.len(), n));
                             }
+                            // "usable": every bucket of the table can be read - absent keys are looked up in both of their
+                            // buckets, enough of them to reach every bucket of a small table (no panic; the answers are not judged here)
+                            let extra = (64 * f.n_buckets()).clamp(256, 4096) as u64;
+                            let mut hits = 0u64;
+                            for x in 0..extra {
+                                hits += f.query(&(1_000_000 + x)) as u64;
+                            }
+                            let _ = hits;
                             Ok(())
                         })
                     },
